@@ -140,7 +140,7 @@ pub fn gen(rng: &mut Rng, n: usize) -> Value {
         4 => json!({"kind": "num-random", "fn": *rng.pick(&["hexized", "hexized_bytes"]), "seed": seed, "n": 2000}),
         _ => {
             // a run of consecutive values starting anywhere below 2^31 - 2^12 (crosses digit-count changes now and then)
-            let a = match rng.below(3) { 0 => 10u64.pow(rng.range(1, 9) as u32) - 500, 1 => 16u64.pow(rng.range(2, 7) as u32) - 500, _ => rng.next() % ((1u64 << 31) - 4096) };
+            let a = match rng.below(3) { 0 => 10u64.pow(rng.range(3, 9) as u32) - 500, 1 => 16u64.pow(rng.range(3, 7) as u32) - 500, _ => rng.next() % ((1u64 << 31) - 4096) };
             json!({"kind": "num-range", "fn": *rng.pick(&["itoa", "hexized", "hexized_bytes"]), "from": a, "to": a + 999})
         }
     }
